@@ -6,5 +6,5 @@ export CARGO_NET_OFFLINE=true
 python3 tools/gen_registry.py
 python3 xlate/xlate.py --repo /repo
 (cd lean && lake build GmQuic gmq_model)
-(cd harness && cp /repo/Cargo.lock Cargo.lock 2>/dev/null || true; cargo build)
+(cd harness && cargo build)
 echo setup-ok
